@@ -72,6 +72,12 @@ var propSpecs = []PropSpec{
 			cfg.Unwind = 5000
 			cfg.ConcretizeIndex = entry == "VC19_Walk"
 		}},
+	{ID: "C07", Pkgs: []string{"pubsub"},
+		BoundsQ:     "<=4 client goroutines (+ the helper goroutines the library starts), preemption bound 2",
+		BoundsT:     "preemption bound 3",
+		Outside:     "more clients; more preemptions; durations ('promptly' = at quiescence under weak fairness)",
+		Assumptions: commonAssumptions,
+		Tune:        func(cfg *Config, tier, entry string) {}},
 	{ID: "C12", Pkgs: []string{"ers", "erc"},
 		BoundsQ:     "trees of depth <=2 with <=4 non-nil leaves over {ers.Join(2..3), ers.Wrap, fmt.Errorf(%w), errors.Join, ParsePanic, Stack.Push chain}; leaves from {nil, two sentinels, pointer error, typed error with symbolic code}; sequential and concurrent (2 adders + reader) Collector",
 		BoundsT:     "<=5 leaves",
